@@ -560,7 +560,16 @@ fn parse_literal(ast: &ast::Literal, context: &mut Context) -> TyperResult<Typed
     let constant = match ast {
         ast::Literal::Bool(b) => ir::Constant::Bool(*b),
         ast::Literal::IntUntyped(i) => ir::Constant::IntLiteral(*i as i128),
-        ast::Literal::IntUnsigned32(i) => ir::Constant::UInt32(*i as u32),
+        ast::Literal::IntUnsigned32(i) => match u32::try_from(*i) {
+            Ok(v) => ir::Constant::UInt32(v),
+            // There are no 64-bit integer types to promote to so reject instead of silently truncating
+            Err(_) => {
+                return Err(TyperError::IntegerLiteralTooLarge(
+                    *i,
+                    SourceLocation::UNKNOWN,
+                ));
+            }
+        },
         ast::Literal::IntUnsigned64(i) => ir::Constant::UInt64(*i),
         ast::Literal::IntSigned64(i) => ir::Constant::Int64(*i),
         ast::Literal::FloatUntyped(f) => ir::Constant::FloatLiteral(*f),
